@@ -86,7 +86,7 @@ def run(chk):
     direction_bookkeeping(chk, src, "direction")
     chk.rule("svd-mode", "every svd_qn/eigh_qn call outside the two intended bond-growing updates is economic (full_matrices=False)", 10)
     chk.rule("system-direction", "system = 'L' if <obj>.to_right else 'R' (one mapping at every site that derives the system side from the direction)", 4)
-    chk.rule("absorb-direction", "_update_ms: sweeping right stores u on site idx and contracts vt into site idx+1 (vt's last-but-one.. first axis), sweeping left mirrors it", 4)
+    chk.rule("absorb-direction", "_update_ms (abstract run): isometry restored on the site, remainder contracted into the neighbour on the sweep side, one cut, singular values once, labels and centre follow", 8)
     chk.rule("ensure-consistency", "ensure_left/right_canonical: (move_qnidx target, to_right) is (0, True) / (last, False), matching canonicalise's entry assertion", 2)
     chk.rule("tree-push", "push_cano_to_parent/child = decompose_to_* followed by merge_to_* with the same node (and child index)", 2)
     svd_mode_rule(chk, src)
@@ -118,47 +118,9 @@ def run(chk):
                     chk.ob("system-direction", f"{fi.qual}", ok, fi.where, unparse(t), "'L' if X.to_right else 'R'", line=n.lineno,
                            detail=f"{fi.qual} derives the system side from the sweep direction with the opposite mapping: the isometry is produced on the wrong "
                                   f"side of the bond and the canonical form is silently lost")
-    # ---- _update_ms absorb direction
-    um = src.func(MP, "MatrixProduct._update_ms")
-    branches = [n for n in um.node.body if isinstance(n, ast.If) and unparse(n.test) == "self.to_right"]
-    if len(branches) != 1:
-        raise AnalysisError(f"{um.where}: `if self.to_right:` store block not found")
-    br = branches[0]
-
-    def stores(body):
-        out = {}
-        for s in body:
-            if isinstance(s, ast.Assign) and isinstance(s.targets[0], ast.Subscript) and unparse(s.targets[0].value) == "self":
-                out[unparse(s.targets[0].slice).replace(" ", "")] = s.value
-            if isinstance(s, ast.Assign) and isinstance(s.targets[0], ast.Name) and s.targets[0].id == "ret_mpsi":
-                out["ret"] = s.value
-        return out
-    r, l = stores(br.body), stores(br.orelse)
-    okr = "idx+1" in r and unparse(r["idx+1"]).replace(" ", "") == "tensordot(vt,self[idx+1],axes=1)" and "ret" in r and unparse(r["ret"]).startswith("u.reshape")
-    okl = "idx-1" in l and unparse(l["idx-1"]).replace(" ", "") == "tensordot(self[idx-1],u,axes=1)" and "ret" in l and unparse(l["ret"]).startswith("vt.reshape")
-    if not okr or not okl:
-        # semantic re-check with the axis tracker (forms other than axes=1)
-        def sem(val, left):
-            tr = Tracker({"vt": [("vt", 0), ("vt", 1)], "u": [("u", 0), ("u", 1)], "S": [("S", 0), ("S", 1), ("S", 2)]})
-            txt = unparse(val).replace("self[idx + 1]", "S").replace("self[idx - 1]", "S")
-            legs = tr.ev(ast.parse(txt, mode="eval").body)
-            want = {(("vt", 1), ("S", 0))} if left else {(("S", 2), ("u", 0))}
-            return {tuple(e) for e in tr.edges} == want or {tuple(reversed(e)) for e in tr.edges} == want
-        try:
-            okr = "idx+1" in r and sem(r["idx+1"], True) and "ret" in r and "u" in unparse(r["ret"])
-            okl = "idx-1" in l and sem(l["idx-1"], False) and "ret" in l and "vt" in unparse(l["ret"])
-        except AnalysisError:
-            pass
-    chk.ob("absorb-direction", "_update_ms[to_right]: next site absorbs vt", okr, um.where, {k: unparse(v)[:60] for k, v in r.items()},
-           "self[idx+1] = vt . self[idx+1]; site idx <- u", line=br.lineno, detail="sweeping right, the non-isometric factor must be contracted into site idx+1 (vt column index with the site's left bond)")
-    chk.ob("absorb-direction", "_update_ms[to_left]: previous site absorbs u", okl, um.where, {k: unparse(v)[:60] for k, v in l.items()},
-           "self[idx-1] = self[idx-1] . u; site idx <- vt", line=br.lineno)
-    fin = [s for s in um.node.body if isinstance(s, ast.Assign) and unparse(s.targets[0]).replace(" ", "") == "self[idx]"]
-    chk.ob("absorb-direction", "_update_ms stores the isometry on site idx", len(fin) == 1 and unparse(fin[0].value) == "ret_mpsi", um.where, [norm_stmt(s) for s in fin], "self[idx] = ret_mpsi")
-    # cuts: u, vt by the same bound before anything else
-    b = Q.prefix_slices(um.node, {"u", "vt", "sigma", "qnlset", "qnrset"})
-    chk.ob("absorb-direction", "_update_ms cuts u, vt (and sigma, labels) by one bound", len({x for v in b.values() for x in v}) == 1 and {"u", "vt"} <= set(b), um.where,
-           {k: sorted(v) for k, v in b.items()}, "one bound m_trunc for u, vt, sigma, labels")
+    # ---- _update_ms: abstract run on abstract tensors (chain_rules.update_ms_rule)
+    from .chain_rules import update_ms_rule
+    update_ms_rule(chk, src, "absorb-direction")
     # ---- ensure_*
     for nm, want in (("ensure_left_canonical", ("0", "True")), ("ensure_right_canonical", ("self.site_num-1", "False"))):
         fi = src.func(MP, f"MatrixProduct.{nm}")
